@@ -4,6 +4,7 @@ go 1.23
 
 require (
 	github.com/junegunn/fzf v0.0.0
+	github.com/rivo/uniseg v0.4.7
 	golang.org/x/sys v0.30.0
 )
 
@@ -11,7 +12,6 @@ require (
 	github.com/charlievieth/fastwalk v1.0.10 // indirect
 	github.com/junegunn/go-shellwords v0.0.0-20250127100254-2aa3b3277741 // indirect
 	github.com/mattn/go-isatty v0.0.20 // indirect
-	github.com/rivo/uniseg v0.4.7 // indirect
 	golang.org/x/term v0.29.0 // indirect
 )
 
